@@ -161,11 +161,12 @@ def urange(bits):
 
 
 class Evaluator:
-    def __init__(self, cell, param_index=0):
+    def __init__(self, cell, param_index=0, wrap_trunc=False):
         self.cell = cell
         self.memo = {}
         self.pi = param_index
-        self.events = []  # (kind, node) range events that hold for ALL members of the cell
+        self.wrap_trunc = wrap_trunc  # model narrowing casts modulo 2^bits instead of as value loss
+        self.wrapped = False
 
     # -- helpers --------------------------------------------------------------------------------
     def ends(self, f):
@@ -296,9 +297,26 @@ class Evaluator:
             mn, mx = self.ends(a)
             if mn >= srange(bits)[0] and mx <= urange(bits)[1]:
                 return a
-            if mn > urange(bits)[1] or mx < srange(bits)[0]:
-                return Bad("trunc-loses-value", n)
-            t = self.boundary(a, urange(bits)[1], True) if mx > urange(bits)[1] else self.boundary(a, srange(bits)[0], False)
+            if not self.wrap_trunc:
+                if mn > urange(bits)[1] or mx < srange(bits)[0]:
+                    return Bad("trunc-loses-value", n)
+                t = self.boundary(a, urange(bits)[1], True) if mx > urange(bits)[1] else self.boundary(a, srange(bits)[0], False)
+                raise Split(at=t)
+            # exact modular semantics (a checker may legitimately look at a wrapped value): on a
+            # cell where floor(M / 2^bits) is constant the result is M - k*2^bits, else split there
+            span = 1 << bits
+            import math
+            k1, k2 = math.floor(mn / span), math.floor(mx / span)
+            if k1 == k2:
+                self.wrapped = True
+                return Form(a.kind, a.p, a.q - k1 * span * a.d, a.d)
+            lim = (k1 + 1) * span - 1 if a.p >= 0 else None
+            if a.p >= 0:
+                t = self.boundary(a, (k1 + 1) * span - Fraction(1, 2), True)
+            else:
+                t = self.boundary(a, (k2) * span - Fraction(1, 2), True)
+            if t is None:
+                return Top("wrap split failed")
             raise Split(at=t)
         if op in ("add", "sub", "mul"):
             signed = n.attr is not None and "nsw" in n.attr
@@ -499,13 +517,15 @@ class Evaluator:
         return (p * M) % nd == 0 and (p * r + q) % nd == 0
 
 
-def analyse(roots, lo, hi, param_index=0, pre_classes=(), ret_views=None, arith=None):
+def analyse(roots, lo, hi, param_index=0, pre_classes=(), ret_views=None, arith=None, wrap_roots=None):
     """roots: {name: dag.Node}.  Returns [(Cell, {name: abstract value})] partitioning [lo,hi].
     ret_views: {name: (bits, signed)} - C++ type of the value; a root whose bit pattern has to be
     re-interpreted to be read in that type becomes Bad('narrowing-changes-value').
     arith: {name: [(guard, node)]} - every arithmetic / cast instruction of a function (dead ones
     included: the inliner may fold their uses away but never deletes them); the first one that is
-    Bad on a cell where its guard holds is reported as res['!'+name]."""
+    Bad on a cell where its guard holds is reported as res['!'+name].
+    wrap_roots: names of roots (checkers) in which a narrowing cast is modelled with its exact
+    modular semantics instead of as a loss of value."""
     work = [Cell(lo, hi)]
     for (M, r) in pre_classes:
         nxt = []
@@ -522,8 +542,9 @@ def analyse(roots, lo, hi, param_index=0, pre_classes=(), ret_views=None, arith=
         if steps > MAX_CELLS:
             raise AnalysisBroken("cell refinement did not converge (%d cells)" % steps)
         e = Evaluator(cell, param_index)
+        ew = Evaluator(cell, param_index, wrap_trunc=True)
         try:
-            res = {k: e.ev(n) for k, n in roots.items()}
+            res = {k: (ew if k in (wrap_roots or ()) else e).ev(n) for k, n in roots.items()}
             for k, (bits, signed) in (ret_views or {}).items():
                 v = res.get(k)
                 if isinstance(v, Form):
